@@ -740,6 +740,16 @@ func frameSizeRules(r *Report) {
 					}
 				}
 			}
+			// the same decided on the shape min(len(data), max) in any spelling
+			if !ok {
+				for _, in := range instrs(f) {
+					if mk, isMk := in.(*ssa.MakeSlice); isMk {
+						if _, lim, isClamp := clampOfAny(mk.Len); isClamp && (lim == max || unwrapConv(lim) == max) {
+							ok = true
+						}
+					}
+				}
+			}
 			r.Decide("flow", "(*M/h2.relay.data): payload length clamped to the maximum frame size", ok, "make size is min(len(data), max)", "DATA payloads are not clamped to the receiver's maximum frame size", f.Pos())
 		} else {
 			if name == "relay.header" {
@@ -914,20 +924,40 @@ func creditOnAllPathsRule(r *Report, swu *ssa.Function) {
 // chosen on the edge where the length exceeds (or reaches) it. Returns the
 // length value and the parameter.
 func clampOf(f *ssa.Function, v ssa.Value) (ssa.Value, *ssa.Parameter, bool) {
-	ph, ok := unwrapConv(v).(*ssa.Phi)
-	if !ok || len(ph.Edges) != 2 {
+	L, lim, ok := clampOfAny(v)
+	if !ok {
 		return nil, nil, false
 	}
-	var L ssa.Value
-	var P *ssa.Parameter
+	p, isP := lim.(*ssa.Parameter)
+	if !isP {
+		return nil, nil, false
+	}
+	return L, p, true
+}
+
+// clampOfAny recognises v as min(len(x), limit): a two-way phi of a length and
+// one other value, decided by a comparison of the two, the limit being chosen
+// exactly on the edge where the length exceeds (or reaches) it. Any equivalent
+// spelling passes (reversed operands, <= for <, the arms swapped).
+func clampOfAny(v ssa.Value) (length, limit ssa.Value, ok bool) {
+	ph, isPhi := unwrapConv(v).(*ssa.Phi)
+	if !isPhi || len(ph.Edges) != 2 {
+		return nil, nil, false
+	}
+	isLenCall := func(e ssa.Value) bool {
+		c, isC := unwrapConv(e).(*ssa.Call)
+		if !isC {
+			return false
+		}
+		b, isB := c.Call.Value.(*ssa.Builtin)
+		return isB && b.Name() == "len"
+	}
+	var L, P ssa.Value
 	for _, e := range ph.Edges {
-		e = unwrapConv(e)
-		if p, isP := e.(*ssa.Parameter); isP {
-			P = p
-		} else if c, isC := e.(*ssa.Call); isC {
-			if b, isB := c.Call.Value.(*ssa.Builtin); isB && b.Name() == "len" {
-				L = e
-			}
+		if isLenCall(e) {
+			L = unwrapConv(e)
+		} else {
+			P = unwrapConv(e)
 		}
 	}
 	if L == nil || P == nil {
@@ -935,7 +965,6 @@ func clampOf(f *ssa.Function, v ssa.Value) (ssa.Value, *ssa.Parameter, bool) {
 	}
 	for k, e := range ph.Edges {
 		pred := ph.Block().Preds[k]
-		// find the If whose edge leads (only) to this pred / this phi edge
 		var iff *ssa.If
 		taken := false
 		if i, isIf := pred.Instrs[len(pred.Instrs)-1].(*ssa.If); isIf {
@@ -954,9 +983,24 @@ func clampOf(f *ssa.Function, v ssa.Value) (ssa.Value, *ssa.Parameter, bool) {
 			return nil, nil, false
 		}
 		x, y := unwrapConv(b.X), unwrapConv(b.Y)
+		// go/ssa does not share common subexpressions: len(x) in the condition and len(x) in
+		// the assignment are two calls of the same thing
+		sameLen := func(a, c ssa.Value) bool {
+			if a == c {
+				return true
+			}
+			ca, oka := a.(*ssa.Call)
+			cc, okc := c.(*ssa.Call)
+			return oka && okc && isLenCall(a) && isLenCall(c) && ca.Call.Args[0] == cc.Call.Args[0]
+		}
+		if sameLen(x, L) {
+			x = L
+		}
+		if sameLen(y, L) {
+			y = L
+		}
 		op := b.Op
-		if x == ssa.Value(P) && y == L {
-			// p op len  ==  len op' p
+		if x == P && y == L {
 			x, y = y, x
 			switch op {
 			case token.LSS:
@@ -969,11 +1013,10 @@ func clampOf(f *ssa.Function, v ssa.Value) (ssa.Value, *ssa.Parameter, bool) {
 				op = token.LEQ
 			}
 		}
-		if x != L || y != ssa.Value(P) {
+		if x != L || y != P {
 			return nil, nil, false
 		}
-		// relation between len and p that holds on this edge
-		exceeds := false // len > p or len >= p
+		exceeds := false
 		switch op {
 		case token.GTR, token.GEQ:
 			exceeds = taken
@@ -982,8 +1025,7 @@ func clampOf(f *ssa.Function, v ssa.Value) (ssa.Value, *ssa.Parameter, bool) {
 		default:
 			return nil, nil, false
 		}
-		isParam := unwrapConv(e) == ssa.Value(P)
-		if isParam != exceeds {
+		if (unwrapConv(e) == P) != exceeds {
 			return nil, nil, false
 		}
 	}
@@ -1006,21 +1048,41 @@ func chunkingRules(r *Report) {
 			mks = append(mks, mk)
 		}
 	}
-	if len(mks) != 2 {
-		r.Undecided("M/h2.splitIntoChunks: chunk allocations", fmt.Sprintf("UNRESOLVED: %d found, want 2 (first chunk, continuation chunks)", len(mks)))
+	if len(mks) == 0 || len(mks) > 2 {
+		r.Undecided("M/h2.splitIntoChunks: chunk allocations", fmt.Sprintf("UNRESOLVED: %d found, want 1 (one loop) or 2 (first chunk, continuation chunks)", len(mks)))
 		return
 	}
 	limits := map[string]bool{}
 	for k, mk := range mks {
 		name := fmt.Sprintf("M/h2.splitIntoChunks: chunk #%d", k+1)
-		L, P, ok := clampOf(f, mk.Len)
+		L, lim, ok := clampOfAny(mk.Len)
+		// the limit is one of the function's two limit parameters (or, in the one-loop form, a
+		// variable that holds the first limit on entry and the continuation limit afterwards)
+		if ok {
+			for _, l := range resolveAll(lim) {
+				p, isP := unwrapConv(l).(*ssa.Parameter)
+				if !isP || p.Parent() != f || p.Type().String() != "int" {
+					ok = false
+					continue
+				}
+				limits[p.Name()] = true
+			}
+			if ph, isPhi := lim.(*ssa.Phi); isPhi && len(mks) == 1 {
+				// entered with the first-chunk limit
+				for i, e := range ph.Edges {
+					if !ph.Block().Dominates(ph.Block().Preds[i]) {
+						if p, isP := unwrapConv(e).(*ssa.Parameter); !isP || p != f.Params[0] {
+							ok = false
+						}
+					}
+				}
+			}
+		}
 		r.Decide("flow", name+" is as long as what is left, at most its limit", ok, "length = min(len(rest), limit): the limit is chosen exactly when the rest exceeds it", "the chunk length is not the minimum of the remaining octets and the frame-size limit: a header block longer than one frame is cut into a frame the receiver must reject, or octets are lost", mk.Pos())
 		if !ok {
 			continue
 		}
-		limits[P.Name()] = true
 		rest := L.(*ssa.Call).Call.Args[0]
-		// copied from the front of the rest, appended, and the rest advanced by the same length
 		copied, appended, advanced := false, false, false
 		for _, in := range instrs(f) {
 			switch x := in.(type) {
@@ -1057,7 +1119,7 @@ func chunkingRules(r *Report) {
 		r.Decide("flow", name+" is appended to the result", appended, "chunks = append(chunks, chunk)", "the chunk is built but not returned: its octets are missing from the header block the peer receives", mk.Pos())
 		r.Decide("flow", name+": what is left is advanced by the chunk's length", advanced, "rest = rest[n:]", "the remainder is not advanced by exactly the chunk's length: octets are repeated, skipped, or the loop never ends on a block longer than one frame", mk.Pos())
 	}
-	r.Decide("table", "M/h2.splitIntoChunks: the first chunk and the continuation chunks use their own limits", limits["firstChunkMax"] && limits["continuationMax"] || len(limits) == 2, "two distinct limit parameters", "both chunk kinds are cut by the same limit: the first chunk (which shares its frame with other fields) can exceed the frame size", f.Pos())
+	r.Decide("table", "M/h2.splitIntoChunks: the first chunk and the continuation chunks use their own limits", len(limits) == 2, "two distinct limit parameters", "both chunk kinds are cut by the same limit: the first chunk (which shares its frame with other fields) can exceed the frame size", f.Pos())
 }
 
 func sameSlice(v ssa.Value, mk *ssa.MakeSlice) bool {
